@@ -1026,8 +1026,118 @@ def rule_pair_key(model):
     return r
 
 
+def _parse_time_derived(fi, key):
+    """Attributes of self that __init__ derives from args[key]."""
+    def mentions(e, names):
+        for x in ast.walk(e):
+            if isinstance(x, ast.Subscript) and isinstance(
+                    x.slice, ast.Constant) and x.slice.value == key:
+                return True
+            if isinstance(x, ast.Call) and isinstance(
+                    x.func, ast.Attribute) and x.func.attr in ('get', 'pop') \
+                    and x.args and isinstance(x.args[0], ast.Constant) \
+                    and x.args[0].value == key:
+                return True
+            if isinstance(x, ast.Name) and x.id in names:
+                return True
+            if isinstance(x, ast.Attribute) and isinstance(
+                    x.value, ast.Name) and x.value.id == 'self' and \
+                    'self.' + x.attr in names:
+                return True
+        return False
+    names = set()
+    changed = True
+    while changed:
+        changed = False
+        for n in own_nodes(fi.node):
+            if isinstance(n, (ast.Assign, ast.AnnAssign, ast.AugAssign)) \
+                    and getattr(n, 'value', None) is not None and \
+                    mentions(n.value, names):
+                tg = n.targets if isinstance(n, ast.Assign) else [n.target]
+                for t in tg:
+                    for x in ast.walk(t):
+                        nm = None
+                        if isinstance(x, ast.Name):
+                            nm = x.id
+                        elif isinstance(x, ast.Attribute) and isinstance(
+                                x.value, ast.Name) and x.value.id == 'self':
+                            nm = 'self.' + x.attr
+                        if nm and nm not in names:
+                            names.add(nm)
+                            changed = True
+    return {n[5:] for n in names if n.startswith('self.')}
+
+
+def rule_effective_spec(model):
+    r = RuleResult('C13.R7', 'the sort routine interprets the spec it is '
+                   'given (the literal sort= or the value of sort_expr): '
+                   'what the constructor derived from the literal sort= at '
+                   'parse time is read only as the fall-back for a missing '
+                   'argument')
+    ci = model.cls('DT_In', 'InClass')
+    init = ci.methods.get('__init__')
+    fi = ci.methods.get('sort_sequence')
+    if init is None or fi is None:
+        raise AnalysisError('InClass.__init__ / sort_sequence not found')
+    derived = _parse_time_derived(init, 'sort')
+    if 'sort' not in derived:
+        raise AnalysisError('C13.R7: InClass.__init__ does not store '
+                            "args['sort'] (anchor vanished)")
+    r.stats['derived from the literal sort= at parse time'] = sorted(derived)
+    params = fi.params()
+    n = 0
+    for x in own_nodes(fi.node):
+        if not (isinstance(x, ast.Attribute) and isinstance(x.ctx, ast.Load)
+                and isinstance(x.value, ast.Name) and x.value.id == 'self'
+                and x.attr in derived):
+            continue
+        n += 1
+        # accepted: `<param> = self.X` / `self.X if <param> is None ...`
+        # under a test that the spec parameter is missing
+        ok = False
+        par = x._dt_parent if hasattr(x, '_dt_parent') else None
+        from ..model import parent as _parent
+        par = _parent(x)
+        spec = None
+        if isinstance(par, ast.Assign) and par.value is x and \
+                len(par.targets) == 1 and isinstance(
+                    par.targets[0], ast.Name) and \
+                par.targets[0].id in params:
+            spec = par.targets[0].id
+            for anc in ancestors(par):
+                if isinstance(anc, ast.If) and par in anc.body and \
+                        norm(anc.test) in (f'{spec} is None',
+                                           f'not {spec}'):
+                    ok = True
+        elif isinstance(par, ast.IfExp):
+            t = norm(par.test)
+            for p_ in params:
+                if (par.body is x and t in (f'{p_} is None', f'not {p_}')) \
+                        or (par.orelse is x and t in (f'{p_} is not None',
+                                                      p_)):
+                    ok = True
+        elif isinstance(par, ast.BoolOp) and isinstance(par.op, ast.Or) \
+                and par.values[-1] is x and isinstance(
+                    par.values[0], ast.Name) and par.values[0].id in params:
+            ok = True
+        r.instance(fi.where, x, 'fall-back for a missing spec' if ok
+                   else 'PARSE-TIME VIEW OF THE SPEC')
+        if not ok:
+            r.finding(fi.where, x, f'self.{x.attr} was derived from the '
+                      'literal sort= attribute when the tag was compiled; '
+                      'sort_sequence also sorts by the spec sort_expr '
+                      'computes at render time, for which this value is '
+                      'stale (a "key/nocase/desc" from sort_expr would not '
+                      'be split into key, function and direction)',
+                      node=x, ctx=fi)
+    if n < 1:
+        raise AnalysisError('C13.R7: sort_sequence does not read the '
+                            'stored spec at all')
+    return r
+
+
 RULES_PLAIN = [rule_mutation, rule_stability, rule_predicate, rule_twins,
-               rule_direction, rule_pair_key]
+               rule_direction, rule_pair_key, rule_effective_spec]
 RULES = [_inl(r_) for r_ in RULES_PLAIN] if INLINED_VIEW else RULES_PLAIN
 EXPLANATION = (
     'Flow-sensitive may-alias analysis of caller data against every '
